@@ -224,10 +224,22 @@ def pid_law_oracle(scn) -> core.CaseResult:
             return res
         seen_death = False
         prev = None
+        pv_seen: dict = {}
         for name in e2e.list_outputs(d, "out"):
             f = e2e.read_sparse(d / name)
             for n, rec in enumerate(f["records"]):
                 pid = [int(p) for p in rec["pid"]]
+                # per-particle values are found at index pid in this file, and are the same in every file
+                for var, arr in f["pvars"].items():
+                    m = np.ma.getmaskarray(arr)
+                    for p_ in pid:
+                        okp = p_ < len(arr) and not m[p_] and not (arr.dtype.kind == "f" and np.isnan(arr[p_]))
+                        if not res.check(okp, "pvar_not_at_pid", f"{name} rec {n}: {var}[pid {p_}] is missing ({arr})"):
+                            break
+                        if var != "release_time":  # stored relative to the file's own reference time
+                            first = pv_seen.setdefault((var, p_), arr[p_].item())
+                            res.check(first == arr[p_].item(), "pvar_changes_between_files",
+                                      f"{name}: {var}[pid {p_}] = {arr[p_]}, an earlier file had {first}")
                 res.check(all(a < b for a, b in zip(pid, pid[1:])), "record_pid_order",
                           f"{name} rec {n}: pid not strictly increasing {pid}")
                 res.check(all(p >= k for k, p in enumerate(pid)), "record_pid_ge_k",
